@@ -160,6 +160,13 @@ def run_types_task(task):
         for x in sorted(set(concrete) - set(missing)):
             for y in sorted(set(concrete) - set(missing)):
                 answers[(x, y)] = bool(types[x].is_sub_type(types[y]))
+        # the hierarchy graph built from the same types: y reaches x along parent->child edges iff x is below y
+        from pddl_plus_parser.models import create_type_hierarchy_graph
+        import networkx as nx
+        g = create_type_hierarchy_graph(types)
+        below_ = {y: (nx.descendants(g, y) if y in g else set()) for y in {k[1] for k in answers}}
+        for (x, y), got in list(answers.items()):
+            answers[("graph", x, y)] = ((x == y or x in below_[y]) == got)
         return concrete, missing, answers
 
     def on_path(ctx: Ctx, pr):
@@ -173,6 +180,11 @@ def run_types_task(task):
         if missing:
             _types_cex(ctx, res, skeleton, child_vars, group_parent, f"names {missing} occur in the declaration but are not registered as types")
             return
+        graph_bad = [k[1:] for k, ok in answers.items() if len(k) == 3 and not ok]
+        if graph_bad:
+            _types_cex(ctx, res, skeleton, child_vars, group_parent, f"create_type_hierarchy_graph disagrees with is_sub_type for {graph_bad[:3]}")
+            return
+        answers = {k: v for k, v in answers.items() if len(k) == 2}
         obs = []
         for (x, y), got in answers.items():
             exp = closure_term(child_vars, parent_of_child, z3.IntVal(VOC.index(x)), z3.IntVal(VOC.index(y)), depth)
@@ -249,6 +261,18 @@ def replay_types(toks):
         for y in parent:
             if x in types and y in types and bool(types[x].is_sub_type(types[y])) != below(x, y):
                 bad.append(f"is_sub_type({x},{y}) = {not below(x, y)}, closure says {below(x, y)}")
+    try:
+        from pddl_plus_parser.models import create_type_hierarchy_graph
+        import networkx as nx
+        g = create_type_hierarchy_graph(types)
+        for x in parent:
+            for y in parent:
+                if x in types and y in types:
+                    in_graph = x == y or (x in g and y in g and x in nx.descendants(g, y))
+                    if in_graph != below(x, y):
+                        bad.append(f"hierarchy graph: {y} reaches {x} = {in_graph}, closure says {below(x, y)}")
+    except Exception as e:  # noqa
+        bad.append(f"create_type_hierarchy_graph raised {type(e).__name__}: {e}")
     return bad
 
 
@@ -447,7 +471,7 @@ def main(tier):
                    "consumers_checking": "4 declaration orders x 5 required types x fact/fluent, object type symbolic over "
                                          "{t1,t2,t3,t4,object}",
                    "outside": "forests deeper than 3 declaration groups (quick) / 4 (thorough); more than 5 names"},
-        "functions_executed_symbolically": ["DomainParser.parse_types", "PDDLType.is_sub_type/is_sub_type_aux",
+        "functions_executed_symbolically": ["DomainParser.parse_types", "PDDLType.is_sub_type/is_sub_type_aux", "create_type_hierarchy_graph",
                                             "ProblemParser.parse_objects/_validate_object_types/parse_grounded_predicate/"
                                             "parse_grounded_numeric_fluent", "Operator.is_applicable/apply (forall ranges)"],
         "note": "the symbolic dimension of (a) and (c) is finite-domain (names), decided by z3 under the well-formedness assumptions",
